@@ -49,9 +49,6 @@ NA = {
  "C15": "engine NM not built yet in this commit",
  "C16": "engine NI not built yet in this commit",
  "C17": "engine HT not built yet in this commit",
- "C18": "engine LOC not built yet in this commit",
- "C19": "engine AUG not built yet in this commit",
- "C20": "engine WEB not built yet in this commit",
 }
 
 CLAIMED.update({
@@ -83,6 +80,18 @@ CLAIMED.update({
          "DESIGN.md §3.11 NM, §4 C15",
          "Only pointer-classified values are recorded, per value, in place, through nested aggregates; inPrimary is OR-accumulated; phase 1 = recurring values seen in the first goroutine, phase 2 = the rest not seen there; one number per value, same number for all its occurrences, advancing by one; keys totally sorted ascending; naming runs iff the option is set and writes only Arg.Name; IsPtr is a function of the value.",
          "Nothing is claimed about pointerFloor/Ceiling as a classifier of real pointers (a guess by design)."),
+ "C18": ("all-paths branch table of updateLocations; separator, search-bound and constant-agreement rules",
+         "DESIGN.md §3.11 LOC, §4 C18",
+         "Narrow claim: each match branch pairs root kind, separator, Location constant and local-path construction; the relative path is the remainder after the matched prefix and the local path ends with it; the class is assigned only while unknown; no-match writes nothing; roots match only at component boundaries; the go.mod and split searches cover every candidate; sibling constants agree; root arithmetic is non-negative.",
+         "Not decided: which roots are found for a given disk layout (I/O-dependent search) — the main behavioural clause of the property. Stated in DESIGN.md."),
+ "C19": ("abstract evaluation of augmentCall's type dispatch per parameter kind against the ABI word table; decoder/formatter rules; name guard; points-to 'writes only Args.Processed'",
+         "DESIGN.md §3.11 AUG, §4 C19",
+         "Per supported kind the number of words consumed equals the number the runtime prints; signed sized integers and floats are decoded through the same-named type/width; popFmt/popName render the value, '_' or '<nil>'; a frame is augmented only with the declaration at its line whose name matches the frame's function; errors are ignored by the caller; raw values never change.",
+         "Not decided: textual equality of rendered values beyond the named stdlib formatter; kinds outside the supported list (arrays, structs, interfaces by name)."),
+ "C20": ("all-paths status/ordering rules on SnapshotHandler; capture-loop growth rule; per-request options; no package-level state",
+         "DESIGN.md §3.11 WEB, §4 C20",
+         "Narrow claim: method test first, exactly one 4xx reply and return for every invalid parameter, 500 for a failed snapshot, the page only on the error-free path; the capture buffer strictly grows to min(2n, maxmem) until the dump fits; options are created per request and no package-level state is written, so concurrent requests cannot influence each other.",
+         "Not decided: anything about the live runtime, goroutine churn or request interleavings (no static argument reaches them). RX inclusion of runtime.Stack's line shapes is added when the RX engine is present."),
 })
 for k in list(CLAIMED): NA.pop(k, None)
 try:
